@@ -212,7 +212,11 @@ type bindBuilder struct {
 }
 
 var bindInts = []int{0, 1, -1, 42, 255, 256, 300, -129, 1 << 31, 1<<53 + 1, math.MaxInt64, math.MinInt64}
-var bindFloats = []float64{0, 1.5, -2.25, 3, 1e100, 1e-7, 255, 300.5, math.MaxFloat64, -0.0}
+var bindFloats = []float64{0, 1.5, -2.25, 3, 1e100, 1e-7, 255, 300.5, math.MaxFloat64, math.Copysign(0, -1),
+	// integral values at and above 2^53 (the JSON text is the shortest decimal that round-trips, not the exact value), values
+	// whose text uses an exponent (no integer destination takes that), -1 into unsigned destinations
+	9007199254740992, 9007199254740994, 1e15, 1e20, 1e21, 123456789012345678, 18446744073709551615, 9223372036854775807, -9223372036854775808,
+	-1, 4294967296, 65536, -129, 1 << 60, 1<<62 + 1<<10, -(1 << 60), 1e18}
 var bindStrs = []string{"", "a", "hello <b>&  wörld", "123", "true", "null", "\xff\xfe bad utf8", "{\"a\":1}", "2021-01-02T03:04:05Z", "aGk="}
 
 func bindTree(r *rng, depth int) any {
@@ -861,6 +865,16 @@ func genBind(r *rng, thorough bool, emit func(BindScenario)) {
 				}
 				mk("val", &BindVal{B: b, N: seed(i)}, BindDest{Kind: "ptr", Ty: ty})
 			}
+		}
+	}
+	// 1a. every number of the float / int tables into every numeric destination (and `any`, `*int`): the JSON TEXT of the number
+	//     decides (shortest decimal of a float, "-0", exponent form), not its value
+	for _, ty := range []string{"int", "uint8", "float64", "any", "pInt", "mapStrInt", "ints"} {
+		for i := range bindFloats {
+			mk("val", &BindVal{B: "float", N: i}, BindDest{Kind: "ptr", Ty: ty})
+		}
+		for i := range bindInts {
+			mk("val", &BindVal{B: "int", N: i}, BindDest{Kind: "ptr", Ty: ty})
 		}
 	}
 	// 2. every value builder x the hostile destinations: untyped nil, typed nil pointer and non-pointer of
